@@ -2,6 +2,7 @@ package bytecode
 
 import (
 	"fmt"
+	"math"
 
 	"evylang.dev/evy/pkg/parser"
 )
@@ -484,6 +485,12 @@ func (c *Compiler) compileProgram(prog *parser.Program) error {
 		if err := c.Compile(s); err != nil {
 			return err
 		}
+	}
+	// Jump targets are patched in place as two byte operands, see
+	// changeOperand. They are positions in the instructions, so they all
+	// fit if the end of the program does.
+	if len(c.instructions) > math.MaxUint16 {
+		return fmt.Errorf("%w: program too large, %d bytes of instructions", ErrOperandRange, len(c.instructions))
 	}
 	return nil
 }
